@@ -291,7 +291,7 @@ def _check_model(ctx, cls_name, pr, gam, toks, grids, outs, st, st_or, st_g, st_
             if any(s_._name == 'spline_term' and (int(s_.spline_order) == 0 or s_.basis == 'cp') for s_ in subs):
                 continue
             sizes = [3, 4, 2][:len(subs)]
-            axes = [np.linspace(float(min(s_.edge_knots_)) - 0.3 * (k_ == 0 and getattr(s_, 'spline_order', 1) >= 1), float(max(s_.edge_knots_)), sz)
+            axes = [np.linspace(float(min(s_.edge_knots_)) - 0.3 * (k_ == 0 and getattr(s_, 'spline_order', 1) >= 1 and getattr(s_, 'dtype', 'numerical') == 'numerical'), float(max(s_.edge_knots_)), sz)
                     for k_, (s_, sz) in enumerate(zip(subs, sizes))]
             # variants: memory layouts of one float64 mesh, and meshes whose FIRST array has another dtype than the others
             # (an integer-valued axis such as a year next to a continuous one; a float32 axis): values, not dtypes, count
